@@ -125,7 +125,7 @@ PROPS = {
                 dict(module="MC_SM2Kex", cfg="MC_SM2Kex_neg", expect="violation", about="negative: a validity test that accepts the point at infinity must be refuted")],
         stages=[dict(suite="sm2kex", trace="TraceSM2", plan=dict(module="PlanKex"),
                      required_classes={"both": ["kx.step2/step2.none", "kx.step3/step3.none", "kx.step4/step4.none", "kx.step2/step2.offcurve", "kx.step2/step2.infinity",
-                                                "kx.step3/step3.bitflip", "kx.step4/step4.other", "kx.step2/step2.rerand", "kx.step3/step3.offcurve-forged"]})],
+                                                "kx.step3/step3.bitflip", "kx.step4/step4.other", "kx.step2/step2.rerand", "kx.step3/step3.offcurve-forged", "kx.step2/step2.vzero"]})],
         assumptions=["SM2.tla transcribes GB/T 32918.3 with w = 127 and one-byte tags (GM/T 0003.5 Annex values as ASSUMEs)"],
     ),
     "C14": dict(
